@@ -10,6 +10,7 @@ REALS = ("ValueType is modelled by exact reals (type R): every 'equals its defin
          "the size and growth of IEEE rounding error is NOT decided by this check")
 
 UNITS = {
+    "combinators": dict(tpl="combinators.rs.tpl", doc="Sequence::call, Method::over/new_over, WithHistory, WithLastValue, generic in M: Method"),
     "highest_lowest_index": dict(tpl="highest_lowest_index.rs.tpl", doc="methods::{HighestIndex, LowestIndex}"),
     "highest_lowest": dict(tpl="highest_lowest.rs.tpl", doc="methods::{Highest, Lowest, HighestLowestDelta}"),
     "derived_window": dict(tpl="derived_window.rs.tpl", doc="methods::{LinearVolatility, Vidya}: windows over one-step changes"),
@@ -159,6 +160,20 @@ PROPS["C07"] = dict(
            "The reversal detectors' absolute PeriodType positions are not under contract yet."),
     assumptions=[REALS + "; in particular the growth of rounding error in running sums over 10^7 steps is NOT decided",
                  "reversal detectors (saturating position counter) not covered yet"],
+)
+
+PROPS["C09"] = dict(
+    verus=["combinators"],
+    forbid_in_src=[(r"static\s+mut\b|thread_local!|\bRefCell\b|\bCell<|Atomic(U|I|Bool)|\brand::|UnsafeCell|lazy_static|OnceCell|OnceLock", "no shared or interior-mutable state"),
+                   (r"\bHashMap\b|\bHashSet\b", "no iteration-order nondeterminism")],
+    claim=("Sequence::call, Method::over and Method::new_over are verified for an ARBITRARY M: Method (generic, against the trait contract) to return "
+           "exactly the element-by-element run: a chain of states linked by M::step with one output per input; lemma_run_concat / lemma_run_split show "
+           "that any split of the stream into consecutive chunks (empty ones included) gives the same chain. WithHistory and WithLastValue are verified "
+           "to perform exactly the wrapped method's step (peek returns a clone of the last output)."),
+    assumptions=["bit-identity of identically built instances and independence of clones are properties of safe Rust without shared/interior-mutable "
+                 "state; they are ASSUMED and backed only by the source scan reported under coverage.src_scan",
+                 "Sequence::apply / Method::apply / new_apply (iter_mut), into_fn/new_fn/init_fn (boxed closures) and IndicatorInstance::over are not under contract",
+                 "the iterator chain in Sequence::call is desugared by rule R8 over the slice-iterator model SliceIt"],
 )
 
 NOT_BUILT = {}
